@@ -429,9 +429,7 @@ func partSched(c *vfw.Ctx, t *testing.T) {
 	}
 	for i, sc := range scenarios() {
 		b := bound
-		if i >= 2 && b > 1 {
-			b = 1 // thorough: two departures on the select/close and select/deselect/T7 scenarios only
-		}
+		_ = i // thorough: two departures on every scenario (affordable since sim's internals stopped being scheduling points)
 		if sc.Name == "active-drop-backoff-over-vs-close" {
 			// Close pinning a generation the reconnect loop is just replacing needs two switches
 			// (Close reads cur | loop publishes | Close fences and waits | loop dials): bound 2 in
